@@ -1,6 +1,7 @@
 package PVM
 
 import (
+	"math"
 	"math/bits"
 
 	"github.com/New-JAMneration/JAM-Protocol/internal/types"
@@ -38,6 +39,12 @@ func Psi_M(
 
 	addition.Program = &program
 
+	// The interpreter keeps its gas counter in a signed 64-bit integer. A limit of
+	// 2^63 or more (it cannot be exhausted anyway) is clamped instead of wrapping to
+	// a negative balance, which made the very first step report out-of-gas.
+	if gas > math.MaxInt64 {
+		gas = math.MaxInt64
+	}
 	host := NewHost(&program, registers, &memory, Gas(gas), addition, omegas)
 	psiHResult := host.HostCall(counter, 0)
 
